@@ -101,10 +101,25 @@ def run(chk):
     L = W.lite
     hw, unknown = hidden_writers(W)
     # ---- R18.1
+    # reverse call graph: a private helper method of the owning class that only the expected
+    # writers (or other such helpers) call writes on their behalf
+    callers = {}
+    for f_ in p.all_funcs():
+        for g_ in L.callees(f_.qname):
+            callers.setdefault(g_, set()).add(f_.qname)
+
+    def on_behalf(q, exp, seen=()):
+        f_ = p.func(q, required=False)
+        if q in exp:
+            return True
+        if f_ is None or q in seen or not (f_.node.name.startswith("_") and not f_.node.name.startswith("__")):
+            return False
+        cs = callers.get(q, set())
+        return bool(cs) and all(on_behalf(c, exp, seen + (q,)) for c in cs)
     for (cls, fld), writers in sorted(hw.items()):
         exp = EXPECTED_WRITERS.get((cls, fld), set())
         for q in sorted(writers):
-            chk.ob("R18.1", "%s.%s is written outside construction by %s" % (cls, fld, q), q in exp, loc="src/ecdsa/%s.py:%d" % (q.split(":")[0], writers[q][0].lineno),
+            chk.ob("R18.1", "%s.%s is written outside construction by %s" % (cls, fld, q), on_behalf(q, exp), loc="src/ecdsa/%s.py:%d" % (q.split(":")[0], writers[q][0].lineno),
                    key="C18|R18.1|%s|%s|%s" % (cls, fld, q), detail="unexpected writer of %s.%s: %s (hidden mutable state of a shared object outside the publication discipline)" % (cls, fld, q))
     for fld, q, ln in unknown:
         chk.ob("R18.1", "store to field %s in %s has a resolvable receiver class" % (fld, q), False, loc="%s:%d" % (q, ln), key="C18|R18.1|unknown|%s|%s" % (fld, q), detail="a field store whose receiver class cannot be determined: %s in %s" % (fld, q))
@@ -143,7 +158,7 @@ def run(chk):
                     # local list built privately: assigned a fresh display in this function, never stored elsewhere, not used after publication
                     nm = v.id
                     assigns = [a for a in ast.walk(f.node) if isinstance(a, ast.Assign) and any(isinstance(t, ast.Name) and t.id == nm for t in a.targets)]
-                    fresh_ = len(assigns) == 1 and isinstance(assigns[0].value, (ast.List, ast.ListComp)) and not getattr(assigns[0].value, "elts", [])
+                    fresh_ = len(assigns) == 1 and isinstance(assigns[0].value, (ast.List, ast.ListComp))
                     later = [x for x in ast.walk(f.node) if isinstance(x, ast.Name) and x.id == nm and x.lineno > n.lineno]
                     aliased = [a for a in ast.walk(f.node) if isinstance(a, ast.Assign) and isinstance(a.value, ast.Name) and a.value.id == nm and a is not n]
                     if fresh_ and not later and not aliased:
